@@ -83,6 +83,7 @@ func (in *Interp) runPath(fn *ssa.Function, argv []Value, p pendingPath) {
 	in.pathCovers = nil
 	in.pathMaybeInfeasible = false
 	in.deferOwner = nil
+	in.errWhere = ""
 	in.epoch++
 	in.cs.Paths++
 	status := "ok"
@@ -94,17 +95,17 @@ func (in *Interp) runPath(fn *ssa.Function, argv []Value, p pendingPath) {
 					status = x.reason
 				case unsupportedErr:
 					status = "unsupported"
-					in.cs.Inconclusive = append(in.cs.Inconclusive, "unsupported: "+x.what+" at "+in.where())
+					in.cs.Inconclusive = append(in.cs.Inconclusive, "unsupported: "+x.what+" at "+in.errWhere)
 				case budgetErr:
 					status = "budget"
-					in.cs.Inconclusive = append(in.cs.Inconclusive, "budget: "+x.what+" at "+in.where())
+					in.cs.Inconclusive = append(in.cs.Inconclusive, "budget: "+x.what+" at "+in.errWhere)
 				case *goPanic:
 					status = "panic"
 					in.handlePanic(x)
 				default:
-					fmt.Fprintf(os.Stderr, "ENGINE ERROR in case %s at %s: %v\n%s\n", in.caseName, in.where(), r, debug.Stack())
+					fmt.Fprintf(os.Stderr, "ENGINE ERROR in case %s at %s: %v\n%s\n", in.caseName, in.errWhere, r, debug.Stack())
 					status = "engine-error"
-					in.cs.Inconclusive = append(in.cs.Inconclusive, fmt.Sprintf("engine error: %v at %s", r, in.where()))
+					in.cs.Inconclusive = append(in.cs.Inconclusive, fmt.Sprintf("engine error: %v at %s", r, in.errWhere))
 				}
 			}
 		}()
